@@ -59,7 +59,7 @@ def evaluate(case) -> Result:
         hbh = 0x4000
         mode_of = {}
         w.behaviour_fn = lambda rec: mode_of.get(rec["hbh"], "answer")
-        repeats = evictions = 0
+        repeats = evictions = reconnects = 0
         answers_per_origin = collections.Counter({hosts[0]: 1, hosts[1]: 1 if len(conns) > 1 else 0})
 
         def absorb():
@@ -123,6 +123,23 @@ def evaluate(case) -> Result:
                     w.submit_answer(r)
                     w.advance(1)
                     absorb()
+            elif kind == "RECONNECT":
+                # the origin's connection goes away (abruptly or after a DPR) and comes back: the window is per origin host
+                ci = ev[1] % len(conns)
+                c = conns[ci]
+                if ev[2] == "dpr":
+                    hbh += 1
+                    req_origin[hbh] = (hosts[ci], hbh, ci)
+                    w.feed_msg(c, {"k": "DPR", "host": hosts[ci], "hbh": hbh, "e2e": hbh})
+                    absorb()
+                w.peer_close(c)
+                held[:] = [r for r in held if req_origin.get(r["hbh"], (None, None, None))[2] != ci]
+                hbh += 1
+                conns[ci] = w.handshake_in(hosts[ci], auth=[4], ip=f"10.1.1.{ci + 1}", hbh=hbh)
+                req_origin[hbh] = (hosts[ci], hbh, ci)
+                seen_out[ci] = 0
+                reconnects += 1
+                absorb()
             elif kind == "DWR":
                 ci = ev[1] % len(conns)
                 hbh += 1
@@ -133,7 +150,7 @@ def evaluate(case) -> Result:
         if W.monitor_threads(w):
             res.classes.append("cross:thread-died")
         res.nontrivial = repeats > 0 or evictions > 0
-        res.classes += [f"window:{N}", f"repeats:{min(repeats, 3)}", f"evictions:{min(evictions, 3)}",
+        res.classes += [f"reconnects:{min(reconnects, 2)}", f"window:{N}", f"repeats:{min(repeats, 3)}", f"evictions:{min(evictions, 3)}",
                         f"two_conns:{bool(case.get('two_conns'))}", f"app:{case.get('app_kind', 'basic')}"]
         res.sample = {"case": case, "windows": {k: list(v) for k, v in window.items()}}
         return res
@@ -149,7 +166,8 @@ def shard_main(shard, nshards, tier, scale):
     req = st.tuples(st.just("REQ"), st.integers(0, 1), st.integers(0, 1), st.integers(1, 3),
                     st.integers(0, 1), st.sampled_from(["answer", "hold"]))
     ev = st.one_of(req, req, req, st.tuples(st.just("ANSWER"), st.integers(0, 3)),
-                   st.tuples(st.just("DWR"), st.integers(0, 1)))
+                   st.tuples(st.just("DWR"), st.integers(0, 1)),
+                   st.tuples(st.just("RECONNECT"), st.integers(0, 1), st.sampled_from(["close", "dpr"])))
 
     @st.composite
     def cases(draw):
@@ -170,7 +188,7 @@ def run(tier, scale=1.0):
     rec = Recorder(PID)
     for d in hyp.pool_run(shard_main, (tier, scale)):
         rec.merge(d)
-    required = {"window:1": 1, "window:4": 1, "repeats:1": 1, "evictions:1": 1, "two_conns:True": 1,
+    required = {"reconnects:1": 1, "window:1": 1, "window:4": 1, "repeats:1": 1, "evictions:1": 1, "two_conns:True": 1,
                 "app:threading": 1}
     return finish(rec, tier=tier, level="exploration", rule=RULE, assumptions=ASSUME, t0=t0,
                   required_classes=required)
